@@ -255,6 +255,33 @@ class Graph:
                 pass
         return cache.get(local)
 
+    def _call_def(self, b, local):
+        """(site, target body) when `local` is assigned exactly once, by a call of exactly one local non-closure fn."""
+        cache = getattr(self, "_calldefs", None)
+        if cache is None:
+            cache = self._calldefs = {}
+        key = (b.id, local)
+        if key in cache:
+            return cache[key]
+        n = 0
+        hit = None
+        for i, blk in enumerate(b.blocks):
+            for st in blk["stmts"]:
+                if st["dst"]["l"] == local:
+                    n += 1
+                rv = st["rv"]
+                if rv.get("k") in ("ref", "rawptr") and rv.get("mut") and rv["pl"]["l"] == local:
+                    n += 5
+            t = blk["term"]
+            if t["k"] == "call" and t["dst"]["l"] == local:
+                n += 1
+                if not t["dst"]["p"]:
+                    targets = [x for x in self.facts.call_targets(t, self.ctx_adt) if x in self.scope]
+                    if len(targets) == 1 and self.facts.bodies[targets[0]].kind != "Closure":
+                        hit = ((b.id, i), targets[0])
+        cache[key] = hit if n == 1 else None
+        return cache[key]
+
     def _place_ty(self, b, pl):
         ch = self._place_chain(b, pl)
         if ch:
@@ -404,6 +431,23 @@ class Graph:
                     npl = {"l": op["pl"]["l"], "p": list(op["pl"]["p"]) + list(pl["p"][1:])}
                     self._read_place(b, npl, dst, kind, op_, dst_ty, site, subst, cs, _depth + 1)
                 return
+            # `_r.k` where `_r` is the result of a local function that returns a tuple literal: component k of the
+            # callee's tuple
+            cd = self._call_def(b, pl["l"])
+            if cd is not None and _depth < 8:
+                site, target = cd
+                tb = self.facts.bodies[target]
+                td2 = self._tuple_def(tb, 0)
+                if td2 is not None and k < len(td2) and td2[k]["k"] in ("copy", "move") and not td2[k]["pl"]["p"] \
+                        and not pl["p"][1:2] == ["*"]:
+                    src = (target, td2[k]["pl"]["l"])
+                    rest = {"l": pl["l"], "p": list(pl["p"][1:])}
+                    ch = self._place_chain(b, pl)[1:]
+                    self.edge(src, Edge(dst, kind, op_, ch or None, dst_ty, site=site, subst=subst,
+                                        cs=("out", site, target)))
+                    for l in place_locals(rest)[1:]:
+                        self.edge((bid, l), Edge(dst, kind, COMPUTE, None, dst_ty, site=site, cs=cs))
+                    return
         chain = self._place_chain(b, pl)
         zs = self._zip_source(b, pl, chain) if (bid, pl["l"]) in self.zip_items else None
         if zs is not None:
